@@ -186,6 +186,43 @@ func Load(dir string, overlay map[string][]byte) (*Prog, error) {
 			}
 		}
 	}
+	// comparisons are read with the constant on the right: `0 < n`, `nil == err`, `Max < length` are
+	// rewritten in place to `n > 0`, `err == nil`, `length > Max` (the rules name the operands by
+	// position; which side the author put the constant on is not semantics)
+	for _, f := range p.Funcs {
+		for _, b := range f.Blocks {
+			for _, in := range b.Instrs {
+				bo, ok := in.(*ssa.BinOp)
+				if !ok {
+					continue
+				}
+				_, xc := bo.X.(*ssa.Const)
+				_, yc := bo.Y.(*ssa.Const)
+				if !xc && !yc {
+					// neither is a constant: a configured limit (a field of a *Config struct, or a field
+					// named max*/limit*) is read on the right as well: `cfg.MaxFailures <= n` -> `n >= cfg.MaxFailures`
+					xc, yc = limitLike(bo.X), limitLike(bo.Y)
+				}
+				if !xc || yc {
+					continue
+				}
+				switch bo.Op {
+				case token.EQL, token.NEQ:
+				case token.LSS:
+					bo.Op = token.GTR
+				case token.GTR:
+					bo.Op = token.LSS
+				case token.LEQ:
+					bo.Op = token.GEQ
+				case token.GEQ:
+					bo.Op = token.LEQ
+				default:
+					continue
+				}
+				bo.X, bo.Y = bo.Y, bo.X
+			}
+		}
+	}
 	sort.SliceStable(p.Funcs, func(i, j int) bool { return p.FuncName(p.Funcs[i]) < p.FuncName(p.Funcs[j]) })
 	theProg = p
 	return p, nil
@@ -308,4 +345,44 @@ func Outermost(f *ssa.Function) *ssa.Function {
 		f = f.Parent()
 	}
 	return f
+}
+
+// limitLike: v is a load of a configuration limit (a field of a struct whose type name ends in
+// "Config", or an unexported/exported field whose name starts with max or limit).
+func limitLike(v ssa.Value) bool {
+	for i := 0; i < 3; i++ {
+		switch x := v.(type) {
+		case *ssa.Convert:
+			v = x.X
+			continue
+		case *ssa.ChangeType:
+			v = x.X
+			continue
+		}
+		break
+	}
+	u, ok := v.(*ssa.UnOp)
+	if !ok || u.Op != token.MUL {
+		return false
+	}
+	fa, ok := u.X.(*ssa.FieldAddr)
+	if !ok {
+		return false
+	}
+	t := fa.X.Type()
+	if p, ok := t.Underlying().(*types.Pointer); ok {
+		t = p.Elem()
+	}
+	st, ok := t.Underlying().(*types.Struct)
+	if !ok || fa.Field >= st.NumFields() {
+		return false
+	}
+	fn := strings.ToLower(st.Field(fa.Field).Name())
+	if strings.HasPrefix(fn, "max") || strings.HasPrefix(fn, "limit") {
+		return true
+	}
+	if n, ok := t.(*types.Named); ok && strings.HasSuffix(n.Obj().Name(), "Config") {
+		return true
+	}
+	return false
 }
